@@ -284,9 +284,13 @@ where
     let (tx, rx) = mpsc::channel::<(usize, usize, R)>();
     let f = Arc::new(f);
     let next_worker = std::cell::Cell::new(0usize);
+    // workers the supervisor has given up on: if one of them comes back after all it must not take
+    // another job (its results are ignored, so that job would be lost)
+    let retired: Arc<Mutex<std::collections::HashSet<usize>>> = Default::default();
     let spawn = |wid: usize| {
         let queue = queue.clone();
         let inflight = inflight.clone();
+        let retired = retired.clone();
         let tx = tx.clone();
         let f = f.clone();
         std::thread::spawn(move || loop {
@@ -294,6 +298,9 @@ where
             // queue and an empty in-flight table while a job is being handed over
             let job = {
                 let mut q = queue.lock().unwrap();
+                if retired.lock().unwrap().contains(&wid) {
+                    break;
+                }
                 let job = q.pop();
                 if let Some((i, _)) = &job {
                     inflight.lock().unwrap().insert(wid, (*i, Instant::now()));
@@ -334,6 +341,11 @@ where
             .map(|(w, (i, _))| (*w, *i))
             .collect();
         for (w, i) in stuck {
+            {
+                // under the queue lock: the worker checks `retired` under the same lock before it pops
+                let _q = queue.lock().unwrap();
+                retired.lock().unwrap().insert(w);
+            }
             abandoned.push(w);
             inflight.lock().unwrap().remove(&w);
             if results[i].is_none() {
